@@ -235,7 +235,7 @@ def accepts(version, node, child, typ, ack, sub, payload):
 def corpus(rule):
     """(payload, expected) pairs whose verdict the statement fixes, plus undecided ones (None)."""
     anyc = [("", True), ("x", True), ("hello world", True), ("0", True), ("å中\U0001f600", True),
-            ("a b\tc", True), ("-1", True), ("1,2", True)]
+            ("a b\tc", True), ("-1", True), ("1,2", True), ("45%", True), ("%s %d", True), ("100%%", True), ("%(x)s", True)]
     if rule in ("ANY", "STREAM_OPEN"):
         return anyc
     if rule == "EMPTY":
@@ -246,7 +246,8 @@ def corpus(rule):
     if rule == "PERCENT_INT":
         return [("0", True), ("1", True), ("50", True), ("99", True), ("100", True), ("-1", False),
                 ("101", False), ("1000", False), ("abc", False), ("", False), ("50.5", None),
-                ("+5", None), (" 50", None), ("1e2", None), ("٥", None), ("1_0", None)]
+                ("+5", None), (" 50", None), ("1e2", None), ("٥", None), ("1_0", None),
+                ("100.9", False), ("inf", False), ("-inf", False), ("nan", False), ("1e999", False)]
     if rule == "INT_1_254":
         return [("1", True), ("254", True), ("100", True), ("0", False), ("255", False), ("", False),
                 ("abc", False), ("-1", False), ("1.5", None)]
@@ -255,14 +256,15 @@ def corpus(rule):
                 ("abc", False), ("2.5", None)]
     if rule == "INT":
         return [("0", True), ("123", True), ("123456", True), ("4294967295", True), ("", False),
-                ("abc", False), ("-5", None), ("1.5", None), ("1e3", None)]
+                ("abc", False), ("-5", None), ("1.5", None), ("1e3", None), ("inf", False), ("nan", False)]
     if rule == "FLOAT_0_100":
         return [("0", True), ("50", True), ("99.5", True), ("100", True), ("100.0", True), ("0.0", True),
                 ("-0.1", False), ("100.1", False), ("101", False), ("abc", False), ("", False),
-                ("1e1", None), ("nan", None), (".5", None), ("5.", None)]
+                ("1e1", None), ("nan", None), (".5", None), ("5.", None), ("inf", False), ("-inf", False), ("1e999", False)]
     if rule == "FLOAT_M1_1":
         return [("-1", True), ("0", True), ("0.9", True), ("1", True), ("1.0", True), ("-1.0", True),
-                ("-1.1", False), ("1.1", False), ("2", False), ("abc", False), ("", False), ("nan", None)]
+                ("-1.1", False), ("1.1", False), ("2", False), ("abc", False), ("", False), ("nan", None),
+                ("inf", False), ("-inf", False)]
     if isinstance(rule, tuple) and rule[0] == "ENUM":
         return [(w, True) for w in rule[1]] + [("", False), ("1", False), ("Foo", False),
                                                 (rule[1][0].lower(), None), (rule[1][0] + "x", False)]
